@@ -85,6 +85,13 @@ def cond_casts():
                  "str(f) > str(g)", "int(f) == str(g)", "str(f) == int(g)", "int(f) == int(f) and flt(g) == flt(g)",
                  "int(f) == 5 and int(g) == 5", "int(f) == 5 or int(g) == 5", "not(f)", "not(A)", "int(f)", "5", "int(f) == 5 == 5"):
         out.append((dict(base, condition=form), docs2))
+    # field-to-field comparisons as operands of an or-chain that counts a field more than once: the
+    # matrix pass must leave them alone (a cell can only read its own column)
+    docs3 = [{"f": a, "g": b, "h": c} for a in (5, "5", 5.5, True) for b in (5, 6, "x") for c in (5, 7)] + [{"f": 5}, {"g": 5, "h": 5}, {"zz": "zz"}, {}]
+    for form in ("int(f) == int(g) or int(f) == int(h) or A", "flt(f) > flt(g) or flt(f) < flt(h) or A", "A or int(f) == int(g) or int(g) == int(f)",
+                 "not (int(f) == int(g) or int(f) == int(h) or A)", "str(f) == str(g) or str(f) == str(h) or A",
+                 "int(f) == int(g) or int(f) == 5 or int(f) == 6", "int(f) == 5 or int(f) == int(g) or int(g) == 6 or A"):
+        out.append((dict(base, condition=form), docs3))
     return out
 
 
